@@ -54,7 +54,10 @@ Ltac pfin := cbn [s_take s_del o_tx o_rel opt_list]; change (E_OK =? 0)%N with t
              change (E_AGAIN =? 0)%N with false; change (E_PROTO =? 0)%N with false; cbn iota;
              wnorm; cbn [s_take s_del o_tx o_rel opt_list fst snd]; wnorm; rewrite ?body_wire; try lia.
 
-(* pairX_send_sched with a peer attached whose aio_send is idle *)
+(* pairX_send_sched with a peer attached whose aio_send is idle.  PairModel.lmq_put keeps the
+   queue unchanged when it is full (the C ignores nni_lmq_put's failure: the message would leak);
+   both call sites put into a queue from which one message has just been taken, so with
+   |wmq| <= wcap / |rmq| <= rcap (PInv) the put succeeds: PairProofs.lmq_put_ok. *)
 Lemma sched_sum k F s p o s' outs :
   (forall c a nb m, o <> PSend c a nb m) ->
   pr_p s = Some p -> ~ In p (map fst (pr_sending s)) -> length (pr_wmq s) <= pr_wcap s ->
@@ -342,66 +345,66 @@ Qed.
 Lemma bus_law_sum fixed keep s o s' outs :
   bus_step fixed s o = (s', outs) -> law_sum (VBus.view fixed keep) s o s' outs.
 Proof.
-  intros H F. cbv zeta. set (V := VBus.view fixed keep).
-  change (v_extra V s o outs) with (@nil pmsg). change (v_dups V s o) with (@nil key).
+  intros H F. cbv zeta.
+  change (v_extra (VBus.view fixed keep) s o outs) with (@nil pmsg). change (v_dups (VBus.view fixed keep) s o) with (@nil key).
   cbn [map]. rewrite !app_nil_r.
-  assert (Q : forall o l, (forall c a nb m, o <> PSend c a nb m) -> s_take F V s o l = 0 /\ s_del F V s o l = 0).
+  assert (Q : forall o l, (forall c a nb m, o <> PSend c a nb m) -> s_take F (VBus.view fixed keep) s o l = 0 /\ s_del F (VBus.view fixed keep) s o l = 0).
   { intros o0 l Ho. apply s_none; [reflexivity|exact Ho]. }
   destruct o as [c a nb m|c a nb|a rv|p peer|p|p rv|p rv m|c op|c|c| |now];
-    try (match goal with |- context [s_take F V s ?o0 outs] => destruct (Q o0 outs ltac:(intros; discriminate)) as [A B] end;
+    try (match goal with |- context [s_take F (VBus.view fixed keep) s ?o0 outs] => destruct (Q o0 outs ltac:(intros; discriminate)) as [A B] end;
          rewrite A, B; clear A B);
     clear Q;
     cbn [op_add op_del]; cbn [bus_step] in H;
     destruct s as [raw pipes rq rcap wait sbuf sn rdb lost]; simp_b.
   - (* PSend: bus0_sock_send *)
-    match goal with |- context [v_clones V ?s ?o] => change (v_clones V s o) with (VBus.clones fixed s o) end.
+    match goal with |- context [v_clones (VBus.view fixed keep) ?s ?o] => change (v_clones (VBus.view fixed keep) s o) with (VBus.clones fixed s o) end.
     unfold VBus.clones. simp_b.
     destruct (negb fixed && nb).
-    + inversion H; subst; clear H. unfold V. bus_view. cbn [s_take s_del]. rewrite send_key_self. bfin.
+    + inversion H; subst; clear H. bus_view. cbn [s_take s_del]. rewrite send_key_self. bfin.
     + inversion H; subst; clear H.
       pose proof (fan_sum F raw (fst (bus_prep raw m)) (snd (bus_prep raw m)) pipes) as L.
       rewrite body_prep in L.
-      destruct (s_quiet V F (mkBus raw pipes rq rcap wait sbuf sn rdb lost) (PSend c a nb m)
+      destruct (s_quiet (VBus.view fixed keep) F (mkBus raw pipes rq rcap wait sbuf sn rdb lost) (PSend c a nb m)
                   (flat_map (offer_outs raw (fst (bus_prep raw m)) (snd (bus_prep raw m))) pipes)
                   (fan_quiet _ _ _ _)) as [A B].
       rewrite s_take_app, s_del_app, A, B. cbn [s_take s_del]. rewrite send_key_self.
-      unfold V. bus_view. bfin. rewrite ?body_prep. lia.
+      bus_view. bfin. rewrite ?body_prep. lia.
   - (* PRecv: bus0_sock_recv *)
-    destruct rq as [|m rest]; [destruct nb|]; inversion H; subst; clear H; unfold V; bus_view; bfin.
+    destruct rq as [|m rest]; [destruct nb|]; inversion H; subst; clear H; bus_view; bfin.
   - (* PCancel: bus0_recv_cancel *)
-    destruct (has_id a wait); inversion H; subst; clear H; unfold V; bus_view; bfin.
+    destruct (has_id a wait); inversion H; subst; clear H; bus_view; bfin.
   - (* PPipeStart: bus0_pipe_start *)
-    destruct (negb (peer =? PROTO_BUS)%N); inversion H; subst; clear H; unfold V; bus_view; bfin.
+    destruct (negb (peer =? PROTO_BUS)%N); inversion H; subst; clear H; bus_view; bfin.
     rewrite flat_map_app. cbn [flat_map bp_q]. bfin.
   - (* PPipeClose: bus0_pipe_close *)
-    inversion H; subst; clear H. unfold V. bus_view.
+    inversion H; subst; clear H. bus_view.
     pose proof (close_sum (fun m => F (OProto, body m)) p pipes). bfin.
   - (* PSendDone: bus0_pipe_send_cb *)
-    unfold V at 2 3. cbn [VBus.view v_tx]. simp_b.
+    cbn [VBus.view v_tx]. simp_b.
     rewrite wsum_tx_of, (wsum_tx_of' (fun k => F (OProto, k))).
     pose proof (wsum_filter_key (fun x => F (OPipe (fst x), body (snd x))) p sn) as P.
-    destruct (N.eqb_spec rv 0) as [->|Hrv]; cbn [negb] in H; inversion H; subst; clear H; unfold V; bus_view;
+    destruct (N.eqb_spec rv 0) as [->|Hrv]; cbn [negb] in H; inversion H; subst; clear H; bus_view;
       unfold drop_sending, held_of.
     + pose proof (next_sum (fun m => F (OProto, body m)) p pipes). rewrite o_tx_TranSend, o_rel_TranSend. bfin.
     + bfin.
   - (* PRecvDone: bus0_pipe_recv_cb *)
     destruct (N.eqb_spec rv 0) as [->|Hrv]; cbn [negb] in H.
-    2:{ inversion H; subst; clear H. destruct (N.eqb_spec rv 0); [contradiction|]. bfin. }
+    2:{ inversion H; subst; clear H. destruct (N.eqb_spec rv 0); [contradiction|]. bus_view. bfin. }
     assert (Bm : body (if raw then mkPmsg (pm_hdr m ++ enc32 p) (pm_body m) else m) = body m) by (destruct raw; reflexivity).
-    unfold V at 2. cbn [v_rx VBus.view]. unfold no_rx. cbn [N.eqb].
-    destruct wait as [|a rest]; [destruct (length rq <? rcap)|]; inversion H; subst; clear H; unfold V; bus_view; bfin;
+    cbn [v_rx VBus.view]. unfold no_rx. cbn [N.eqb].
+    destruct wait as [|a rest]; [destruct (length rq <? rcap)|]; inversion H; subst; clear H; bus_view; bfin;
       rewrite ?Bm; lia.
   - (* PSetOpt *)
-    destruct op; try (inversion H; subst; clear H; bfin).
-    + destruct (buf_bad n); inversion H; subst; clear H; unfold V; bus_view; [bfin|].
+    destruct op; try (inversion H; subst; clear H; bus_view; bfin; fail).
+    + destruct (buf_bad n); inversion H; subst; clear H; bus_view; [bfin|].
       pose proof (shrink_sum (fun m => F (OProto, body m)) n pipes). bfin.
-    + destruct (buf_bad n); inversion H; subst; clear H; unfold V; bus_view; [bfin|].
+    + destruct (buf_bad n); inversion H; subst; clear H; bus_view; [bfin|].
       pose proof (wsum_firstn_skipn (fun m => F (OProto, body m)) n rq). bfin.
-  - inversion H; subst; clear H. bfin.
-  - inversion H; subst; clear H. bfin.
+  - inversion H; subst; clear H. bus_view. bfin.
+  - inversion H; subst; clear H. bus_view. bfin.
   - (* PSockClose: bus0_sock_close *)
-    inversion H; subst; clear H. unfold V. bus_view. bfin.
-  - inversion H; subst; clear H. bfin.
+    inversion H; subst; clear H. bus_view. bfin.
+  - inversion H; subst; clear H. bus_view. bfin.
 Qed.
 
 (* every clone of bus0_sock_send is a clone of the message just taken from the sending aio *)
@@ -428,3 +431,35 @@ Proof.
   - apply law_sum_eq. apply bus_law_sum. exact H.
   - eapply bus_clones_held. exact H.
 Qed.
+
+(* ------------------------------ the contracts are satisfiable ------------------------------ *)
+(* option change, buffered send, peer attaches (the message goes out), transport completion,
+   a message arrives and is parked, a receive takes it, the peer goes, the socket closes *)
+Example pair0_ok_nonvacuous : forall fx fs,
+  ops_ok (pair_step_g K0 fx fs) pair_ok pair_init
+    [PSetOpt None (OSendBuf 1); PSend None 1%N false (mkPmsg [] [1%N]); PPipeStart 5%N PROTO_PAIR0;
+     PSendDone 5%N 0%N; PSend None 3%N false (mkPmsg [] [2%N]); PSendDone 5%N 0%N;
+     PRecvDone 5%N 0%N (mkPmsg [] [9%N]); PRecv None 2%N false; PRecv None 4%N false; PCancel 4%N E_CANCELED;
+     PPipeClose 5%N; PSockClose].
+Proof. intros [|] [|]; vm_compute; intuition (try discriminate; try congruence). Qed.
+
+Example pair1_ok_nonvacuous : forall fx fs,
+  ops_ok (pair_step_g (K1 false) fx fs) pair_ok pair_init
+    [PSetOpt None (OMaxTtl 4); PSetOpt None (OSendBuf 1); PSend None 1%N false (mkPmsg [] [1%N]);
+     PPipeStart 5%N PROTO_PAIR1; PSendDone 5%N 0%N; PSend None 3%N false (mkPmsg [] [2%N]); PSendDone 5%N 0%N;
+     PRecvDone 5%N 0%N (mkPmsg [] [0%N; 0%N; 0%N; 1%N; 9%N]); PRecv None 2%N false;
+     PRecv None 4%N false; PCancel 4%N E_CANCELED; PPipeClose 5%N; PSockClose].
+Proof. intros [|] [|]; vm_compute; intuition (try discriminate; try congruence). Qed.
+
+(* option change, two pipes, a send fanned out to both, transport completion, a message arrives,
+   a receive takes it, a pipe goes, the socket closes *)
+Example bus_ok_nonvacuous : forall fixed raw,
+  ops_ok (bus_step fixed) BusProofs.op_ok (bus_init raw)
+    [PSetOpt None (ORecvBuf 4); PPipeStart 1%N PROTO_BUS; PPipeStart 2%N PROTO_BUS;
+     PSend None 7%N false (mkPmsg [0%N; 0%N; 0%N; 1%N] [3%N]); PSendDone 2%N 0%N;
+     PRecvDone 2%N 0%N (mkPmsg [] [4%N]); PRecv None 8%N false; PRecv None 9%N false; PCancel 9%N E_CANCELED;
+     PPipeClose 1%N; PSockClose].
+Proof. intros [|] [|]; vm_compute; intuition (try discriminate; try congruence). Qed.
+
+Print Assumptions pair_proto_law.
+Print Assumptions bus_proto_law.
